@@ -10,6 +10,7 @@ def run(tier, seed, limit=0):
     if limit:
         scs = scs[:limit]
     chk.run_scenarios(scs, "Trace_VscRand")
+    chk.run_mc("B_UsedRand", {"MaxLevel": 4 if tier == "quick" else 6}, label="is_used_rand mechanics |= UsedRand")
     return chk.finish(LEVEL, "trees with several sub-objects of one class, object lists and cross-level constraints naming one field per "
                       "distinct path (attribute chains, list indices, foreach over object lists), random / non-random sub-objects; probes "
                       "pin every scalar of the whole tree (solutions, their single-field mutations and random rows) so an aliased "
